@@ -54,7 +54,8 @@ func (c *Conn) addImport(id importID) *capnp.Client {
 		ent.wireRefs++
 		client, ok := ent.wc.AddRef()
 		if !ok {
-			ent.generation++
+			c.importGen++
+			ent.generation = c.importGen
 			client = capnp.NewClient(&importClient{
 				c:          c,
 				id:         id,
@@ -64,13 +65,18 @@ func (c *Conn) addImport(id importID) *capnp.Client {
 		}
 		return client
 	}
+	// Generations are unique per Conn, not per entry: a stale client of an
+	// entry that has been deleted and re-created must not match the new entry.
+	c.importGen++
 	client := capnp.NewClient(&importClient{
-		c:  c,
-		id: id,
+		c:          c,
+		id:         id,
+		generation: c.importGen,
 	})
 	c.imports[id] = &impent{
-		wc:       client.WeakRef(),
-		wireRefs: 1,
+		wc:         client.WeakRef(),
+		wireRefs:   1,
+		generation: c.importGen,
 	}
 	return client
 }
@@ -262,7 +268,7 @@ func (ic *importClient) Shutdown() {
 	}
 	defer ic.c.tasks.Done()
 	ent := ic.c.imports[ic.id]
-	if ic.generation != ent.generation {
+	if ent == nil || ic.generation != ent.generation {
 		// A new reference was added concurrently with the Shutdown.  See
 		// impent.generation documentation for an explanation.
 		ic.c.mu.Unlock()
